@@ -121,6 +121,10 @@ def run_history_job(job):
                 post = H.storage_json(p.world, c, eng) if k == len(trail) - 1 else None
                 diffs += ['step %d: %s' % (k, d) for d in H.compare_replay(H.predicted_result(p, c, eng), post, n)]
             return scen, nat, diffs
+        # witnesses spread over the whole list of histories (accepted ones first), not the first few in exploration order
+        order_ = sorted(range(len(trails)), key=lambda i_: 0 if trails[i_][-1][2].kind == 'ok' else 1)
+        stride_ = max(1, len(order_) // max(1, budget))
+        witness_at = set(order_[::stride_][:budget])
         for ti_, trail in enumerate(trails):
             accepted = trail[-1][2].kind == 'ok'
             res['paths']['accepted_history' if accepted else 'history_ending_in_a_refusal'] += 1
@@ -166,7 +170,7 @@ def run_history_job(job):
                     except Exception as e:
                         v.update(reproduced=False, diffs=['replay failed: %r' % (e,)], scenario=None)
                     res['violations'].append(v)
-            if ti_ < budget:
+            if ti_ in witness_at:
                 r, m = dec.check(pc + env + nice + ties, 'witness')
                 if r == 'sat':
                     try:
